@@ -31,7 +31,7 @@ func c17Copies() map[string]stdelliptic.Curve {
 func runC17(c *core.Ctx) {
 	ref := wei.Secp256k1()
 	n, p := ref.N, ref.P
-	c.Rule = "both copies of the curve: all ordered pairs of a 60-point set (O, +-jG for j=1..16, +-(n-1)/2 G, +-(n+1)/2 G, fixed multiples) for Add, all of them for Double, 60 scalar byte strings (empty, zeros, 1..16, n-1..n+2, 2n, 2^256-1, 33-byte, zero-padded) x 6 base points for ScalarMult and ScalarBaseMult, IsOnCurve for x=0..2000 x {both roots, root+-1, 0, 1, p-1}; oracle: affine math/big group law with identity (0,0); non-trivial = distinct (operation, operands) cases compared"
+	c.Rule = "both copies of the curve: all ordered pairs of a 60-point set (O, +-jG for j=1..16, +-(n-1)/2 G, +-(n+1)/2 G, fixed multiples) for Add, all of them for Double, 60 scalar byte strings (empty, zeros, 1..16, n-1..n+2, 2n, 2^256-1, 33-byte, zero-padded) x 6 base points for ScalarMult and ScalarBaseMult, IsOnCurve for x=0..2000 x {both roots, root+-1, 0, 1, p-1} and for all points where x^3, x^3+7 or y^2 is within 20 of the modulus (cube/square roots); oracle: affine math/big group law with identity (0,0); non-trivial = distinct (operation, operands) cases compared"
 	copies := c17Copies()
 	if len(copies) != 2 {
 		c.Set("internal_copy_reachable", false)
@@ -207,6 +207,71 @@ func runC17(c *core.Ctx) {
 				if pn != nil || got != want {
 					c.Violate(fmt.Sprintf("C17/%s/IsOnCurve", cname), fmt.Sprintf("IsOnCurve(%d, %s) = %v (panic %v), want %v", xi, y.Text(16), got, pn, want), map[string]interface{}{"x": xi, "y": y.Text(16)}, "", nil)
 				}
+			}
+		}
+		// boundary family: coordinates for which an intermediate value of the curve equation lands next to 0 or p
+		// (x^3 mod p, x^3+7 mod p or y^2 mod p within 20 of the modulus), found with cube and square roots
+		{
+			nine := big.NewInt(9)
+			if new(big.Int).Mod(p, nine).Int64() == 7 {
+				e3 := new(big.Int).Div(new(big.Int).Add(p, big.NewInt(2)), nine) // cube root exponent for p = 7 mod 9
+				var omega *big.Int
+				for h := int64(2); omega == nil; h++ {
+					w := new(big.Int).Exp(big.NewInt(h), new(big.Int).Div(new(big.Int).Sub(p, one), big.NewInt(3)), p)
+					if w.Cmp(one) != 0 {
+						omega = w
+					}
+				}
+				cubeRoots := func(a *big.Int) []*big.Int {
+					x := new(big.Int).Exp(a, e3, p)
+					if new(big.Int).Exp(x, big.NewInt(3), p).Cmp(new(big.Int).Mod(a, p)) != 0 {
+						return nil
+					}
+					x2 := new(big.Int).Mod(new(big.Int).Mul(x, omega), p)
+					x3 := new(big.Int).Mod(new(big.Int).Mul(x2, omega), p)
+					return []*big.Int{x, x2, x3}
+				}
+				var cand []wei.Pt
+				for d := int64(-20); d <= 20; d++ {
+					// x^3 = d  (so x^3+7 is d+7), and x^3 + 7 = d
+					for _, a := range []*big.Int{new(big.Int).Mod(big.NewInt(d), p), new(big.Int).Mod(big.NewInt(d-7), p)} {
+						for _, x := range cubeRoots(a) {
+							if pt, ok := ref.LiftX(x); ok {
+								cand = append(cand, pt, ref.Neg(pt))
+							} else {
+								cand = append(cand, wei.Pt{X: x, Y: big.NewInt(1)}, wei.Pt{X: x, Y: new(big.Int).Sub(p, one)})
+							}
+						}
+					}
+					// y = d (small or just below p): x^3 = y^2 - 7
+					y := new(big.Int).Mod(big.NewInt(d), p)
+					a := new(big.Int).Mod(new(big.Int).Sub(new(big.Int).Mul(y, y), big.NewInt(7)), p)
+					for _, x := range cubeRoots(a) {
+						cand = append(cand, wei.Pt{X: x, Y: y})
+					}
+				}
+				onc := 0
+				for _, q := range cand {
+					want := ref.OnCurve(q)
+					if want {
+						onc++
+						nontriv++
+					}
+					var got bool
+					pn := core.Catch(func() { got = cur.IsOnCurve(cp(q.X), cp(q.Y)) })
+					c.Eval(1)
+					if pn != nil || got != want {
+						c.Violate(fmt.Sprintf("C17/%s/IsOnCurve/boundary", cname), fmt.Sprintf("IsOnCurve(%s, %s) = %v (panic %v), want %v (x^3+7 or y^2 next to the modulus)", q.X.Text(16), q.Y.Text(16), got, pn, want), map[string]interface{}{"x": q.X.Text(16), "y": q.Y.Text(16)}, "", nil)
+					}
+					if want { // a genuine curve point: the group law must hold for it too
+						nq := ref.Mul(q, big.NewInt(5))
+						x5, y5 := cur.ScalarMult(cp(q.X), cp(q.Y), []byte{5})
+						if x5 == nil || x5.Cmp(nq.X) != 0 || y5.Cmp(nq.Y) != 0 {
+							c.Violate(fmt.Sprintf("C17/%s/ScalarMult/boundary-point", cname), "5*P wrong for a boundary point", map[string]interface{}{"x": q.X.Text(16), "y": q.Y.Text(16)}, "", nil)
+						}
+					}
+				}
+				c.Set("boundary_points_on_curve_"+cname, int64(onc))
 			}
 		}
 		for _, a := range pts {
